@@ -35,8 +35,16 @@ CNew == /\ Is("cnew")
         /\ cIn' = 0 /\ cEm' = 0 /\ frameIn' = 0 /\ ending' = FALSE /\ pledged' = -1 /\ flushed' = FALSE /\ ended' = FALSE /\ cErr' = FALSE
         /\ frames' = <<>> /\ srcEnds' = <<>> /\ dIn' = 0 /\ dOut' = 0 /\ dErr' = FALSE
 
-Info == /\ l <= Len(Tr) /\ Ev.e \in {"cparam", "dparam", "src", "api", "move", "end"} /\ l' = l + 1
+MtKinds == {"mtInit", "mtRange", "mtWrap", "mtJobCreate", "mtJobPost", "mtJobEmptyLast", "mtSerial", "mtSerialSkipped", "mtSerialForce",
+            "mtJobChunk", "mtJobEnd", "mtFlush", "mtJobDone"}     \* events of ZstdMTTrace.tla, not judged here
+Info == /\ l <= Len(Tr) /\ Ev.e \in {"cparam", "dparam", "src", "api", "move", "end"} \cup MtKinds /\ l' = l + 1
         /\ UNCHANGED <<cIn, cEm, frameIn, ending, pledged, flushed, ended, cErr, frames, srcEnds, dIn, dOut, dErr>>
+
+\* ZSTD_CCtx_reset(session_only) in the middle of a frame: the frame is abandoned, the context is as after a completed frame
+CReset == /\ Is("creset") /\ Ev.ok
+          /\ cIn' = Ev.srcPos /\ cEm' = Ev.emitted /\ frameIn' = Ev.srcPos
+          /\ ending' = FALSE /\ pledged' = -1 /\ flushed' = FALSE /\ ended' = (Ev.emitted > 0) /\ cErr' = FALSE
+          /\ UNCHANGED <<frames, srcEnds, dIn, dOut, dErr>>
 
 Pledge == /\ Is("pledge") /\ Ev.ok /\ pledged' = Ev.n
           /\ UNCHANGED <<cIn, cEm, frameIn, ending, flushed, ended, cErr, frames, srcEnds, dIn, dOut, dErr>>
@@ -154,7 +162,7 @@ Trail == /\ Is("trail") /\ (Ev.n > 0 => ~Ev.oneshotOK)
 Sizes == /\ Is("sizes") /\ Ev.cin >= Ev.blockMax /\ Ev.cout >= Ev.bound /\ Ev.dout >= Ev.blockMax /\ Ev.din >= Ev.blockMax + 3
          /\ UNCHANGED <<cIn, cEm, frameIn, ending, pledged, flushed, ended, cErr, frames, srcEnds, dIn, dOut, dErr>>
 
-SNext == Trail \/ Sizes \/ CNew \/ Info \/ Pledge \/ Skip \/ CCall \/ CCallAfterErr \/ Prefix \/ Layout \/ DNew \/ DCall \/ DHint \/ OneShot \/ Cut \/ FlipSum
+SNext == CReset \/ Trail \/ Sizes \/ CNew \/ Info \/ Pledge \/ Skip \/ CCall \/ CCallAfterErr \/ Prefix \/ Layout \/ DNew \/ DCall \/ DHint \/ OneShot \/ Cut \/ FlipSum
 
 Track == IF l > TLCGet(1) THEN TLCSet(1, l) ELSE TRUE
 TraceAccepted == IF TLCGet(1) = Len(Tr) + 1 THEN TRUE
